@@ -59,13 +59,13 @@ Lemma xml_diags_inv cfg fz e xd : xml_diags cfg fz e = Ok xd -> forall d, In d x
 Proof.
   unfold xml_diags. destruct (c_encoding cfg); cbn [negb]; cbv iota; [|intros H; inversion H; contradiction].
   intros H. apply obind_ok in H. destruct H as [r [Hr H]].
-  unfold xml_check in Hr. destruct (existsb is_surrogate (me_msgid e)); [discriminate|]. inversion Hr; subst. clear Hr.
+  unfold xml_check in Hr. inversion Hr; subst. clear Hr.
   destruct (c_xml cfg (me_msgid e)) as [m|] eqn:E1.
   - inversion H; subst. destruct (c_template cfg); [|contradiction]. intros d [<-|[]]. eauto 8.
   - destruct fz; [inversion H; contradiction|].
     destruct (is_nil (me_msgstr e)) eqn:E2; [inversion H; contradiction|]. apply is_nil_false in E2.
     apply obind_ok in H. destruct H as [r2 [Hr2 H]].
-    unfold xml_check in Hr2. destruct (existsb is_surrogate (me_msgstr e)); [discriminate|]. inversion Hr2; subst.
+    unfold xml_check in Hr2. inversion Hr2; subst.
     inversion H; subst. destruct (c_xml cfg (me_msgstr e)) as [m|] eqn:E3; [|contradiction].
     intros d [<-|[]]. exists m. split; auto. split; auto.
 Qed.
@@ -472,7 +472,6 @@ Qed.
 (* ------------------------------------------------------------------ *)
 (* no crash                                                             *)
 
-Definition scalar_text (s : list N) : Prop := existsb is_surrogate s = false.
 Definition ctl_complete (ctl : list N) : Prop := forall c, is_cc c = true -> memN c ctl = true.
 
 Lemma parse_range_total s : exists r, parse_range 0 s = Ok r.
@@ -497,9 +496,9 @@ Qed.
 Lemma check_flags_total cfg hp F : c_maxd cfg = 0 -> exists r, check_flags cfg hp F = Ok r.
 Proof. intros Hm. unfold check_flags. destruct (classify_all_total cfg Hm (counter_sorted F)) as [items ->]. cbn. eauto. Qed.
 
-Lemma xml_diags_total cfg fz e : scalar_text (me_msgid e) -> scalar_text (me_msgstr e) -> exists xd, xml_diags cfg fz e = Ok xd.
+Lemma xml_diags_total cfg fz e : exists xd, xml_diags cfg fz e = Ok xd.
 Proof.
-  unfold scalar_text, xml_diags, xml_check. intros H1 H2. rewrite H1, H2. destruct (negb (c_encoding cfg)); eauto. cbn.
+  unfold xml_diags, xml_check. destruct (negb (c_encoding cfg)); eauto. cbn.
   destruct (c_xml cfg (me_msgid e)); eauto. destruct fz; eauto. destruct (is_nil (me_msgstr e)); eauto.
 Qed.
 Lemma unusual_loop_total cfg muc : ctl_complete (c_ctlnames cfg) -> forall strs found, exists r, unusual_loop cfg muc found strs = Ok r.
@@ -512,30 +511,27 @@ Proof.
   rewrite E. cbn [negb]. destruct (IH (found ++ uc)) as [r ->]. cbn. eauto.
 Qed.
 Lemma check_entry_total cfg seen found e : c_maxd cfg = 0 -> ctl_complete (c_ctlnames cfg) ->
-  scalar_text (me_msgid e) -> scalar_text (me_msgstr e) -> exists r, check_entry cfg seen found e = Ok r.
+  exists r, check_entry cfg seen found e = Ok r.
 Proof.
-  intros Hm Hc H1 H2. unfold check_entry.
+  intros Hm Hc. unfold check_entry.
   destruct (check_flags_total cfg (match me_plural e with Some _ => true | None => false end) (me_flags e) Hm) as [fr ->]. cbn [obind].
   assert (X : exists xd, (if xml_trigger (me_comment e) then xml_diags cfg (fi_fuzzy (snd fr)) e else Ok []) = Ok xd).
-  { destruct (xml_trigger (me_comment e)); eauto. apply xml_diags_total; auto. }
+  { destruct (xml_trigger (me_comment e)); eauto. apply xml_diags_total. }
   destruct X as [xd ->]. cbn [obind].
   match goal with |- context [if c_encoding cfg then ?a else ?b] => assert (U : exists ud, (if c_encoding cfg then a else b) = Ok ud) end.
   { destruct (c_encoding cfg); eauto. apply unusual_loop_total; auto. }
   destruct U as [ud ->]. cbn [obind]. eauto.
 Qed.
 Theorem check_messages_total cfg cat : c_maxd cfg = 0 -> ctl_complete (c_ctlnames cfg) ->
-  (forall e, In e cat -> scalar_text (me_msgid e) /\ scalar_text (me_msgstr e)) ->
   exists ds, check_messages cfg cat = Ok ds.
 Proof.
-  intros Hm Hc Hs. unfold check_messages.
-  assert (G : forall es i seen found, (forall e, In e es -> scalar_text (me_msgid e) /\ scalar_text (me_msgstr e)) ->
-              exists r, run cfg i seen found es = Ok r).
-  { induction es as [|e es IH]; intros i seen found He; [cbn; eauto|]. rewrite run_step.
-    destruct (live e); [|apply IH; intros; apply He; right; auto].
-    destruct (He e (or_introl eq_refl)) as [A B].
-    destruct (check_entry_total cfg seen found e Hm Hc A B) as [x ->]. cbn [obind].
-    destruct (IH (S i) (key_of e :: seen) (snd x)) as [y ->]; [intros; apply He; right; auto|]. cbn. eauto. }
-  destruct (G cat 0%nat [] [] Hs) as [r ->]. cbn. eauto.
+  intros Hm Hc. unfold check_messages.
+  assert (G : forall es i seen found, exists r, run cfg i seen found es = Ok r).
+  { induction es as [|e es IH]; intros i seen found; [cbn; eauto|]. rewrite run_step.
+    destruct (live e); [|apply IH].
+    destruct (check_entry_total cfg seen found e Hm Hc) as [x ->]. cbn [obind].
+    destruct (IH (S i) (key_of e :: seen) (snd x)) as [y ->]. cbn. eauto. }
+  destruct (G cat 0%nat [] []) as [r ->]. cbn. eauto.
 Qed.
 
 (* ------------------------------------------------------------------ *)
